@@ -317,6 +317,10 @@ func (fr *Frame) callFunc(b *ssa.BasicBlock, f *ssa.Function, c *ssa.CallCommon,
 		}
 		return &Val{T: f.Signature.Results().At(0).Type(), S: vc.def("g_Iface", "arrayof", fmt.Sprintf("(ite (= (g_scap %s) (_ bv0 64)) g_niliface (g_mkiface %s (g_sarr %s)))", sl, tag, sl))}
 	}
+	if strings.HasPrefix(name, "verif_mapid[") {
+		// the identity of a map (maps are references; Go can compare them to nil only)
+		return &Val{T: f.Signature.Results().At(0).Type(), S: args[0].S}
+	}
 	if strings.HasPrefix(name, "verif_sameelems[") {
 		// the two slices hold the same sequence of elements
 		sl, ok := args[0].T.Underlying().(*types.Slice)
